@@ -18,14 +18,15 @@ def Raise.HLO.isReduce : HLO → Bool
   | .reduce _ _ _ => true
   | _ => false
 
-/-- Soundness of raising, for every classification except `ReduceOp`
-    (`FullOp`, `BinaryOp` in both operand orders with array / scalar operands and
-    broadcasting, `C99CallOp`, `ZerosLikeOp`, `WhereOp`, `LogicalNotOp`,
-    `BroadcastOp`): for ANY expression, shape and environment, if the model of
-    the raiser answers `h`, then NumPy's `h` applied to the identified operands
-    has the index lambda's shape and, at every in-bounds index, its value. -/
+/-- Soundness of raising, for EVERY classification (`FullOp`, `BinaryOp` in both
+    operand orders with array / scalar operands and broadcasting, `C99CallOp`,
+    `ZerosLikeOp`, `WhereOp`, `LogicalNotOp`, `ReduceOp` over any axis subset and
+    any of the six operators, `BroadcastOp`): for ANY expression, shape and
+    environment, if the model of the raiser answers `h`, then NumPy's `h` applied
+    to the identified operands has the index lambda's shape and, at every
+    in-bounds index, its value. -/
 theorem raise_sound (e : SExpr) (shape : Shape) (env : List (String × Arr Val)) (h : HLO)
-    (hr : raise e shape (shapesOf env) = some h) (hnr : h.isReduce = false) :
+    (hr : raise e shape (shapesOf env) = some h) :
     (hloDenote h shape env).shape = shape ∧
     ∀ i, inB shape i = true → (hloDenote h shape env).get i = eval (idxEnv i env) (dropCasts e) := by
   refine ⟨rfl, fun i hi => ?_⟩
@@ -64,18 +65,8 @@ theorem raise_sound (e : SExpr) (shape : Shape) (env : List (String × Arr Val))
     cases h6 : tryReduce e shape (shapesOf env) with
     | some h' =>
       simp only [h1, h2, h3, h4, h5, h6, Option.orElse, Option.some.injEq] at hr; subst hr
-      -- `tryReduce` only produces `ReduceOp`s
-      exfalso
-      unfold tryReduce at h6
-      split at h6
-      · simp only at h6
-        split at h6
-        · split at h6
-          · obtain ⟨axes, _, rfl⟩ := Option.map_eq_some_iff.mp h6
-            simp [HLO.isReduce] at hnr
-          · cases h6
-        · cases h6
-      · cases h6
+      rw [tryReduce_noCasts e shape env _ h6]
+      exact tryReduce_sound e shape env _ h6 i hi
     | none =>
       simp only [h1, h2, h3, h4, h5, h6, Option.orElse] at hr
       rw [tryBroadcast_noCasts e shape _ h hr]
@@ -169,26 +160,21 @@ theorem raise_reduce_inv (e : SExpr) (shape : Shape) (bs : List (String × Shape
         · cases hr
       · cases hr
 
-/-- Soundness of raising to a `ReduceOp` (reductions over any subset of axes,
-    any of the six operators), under the side conditions `reduceSideOK` that the
-    real `_is_normal_reduce_expr` does not check (see `raise_reduce_misreads`):
-    NumPy's reduction over the recorded axes has, at every in-bounds index, the
-    value of the index lambda. -/
+/-- the `ReduceOp` case on its own, against the expression as written (a
+    recognised reduction contains no casts) -/
 theorem raise_sound_reduce (e : SExpr) (shape : Shape) (env : List (String × Arr Val)) (h : HLO)
-    (hr : raise e shape (shapesOf env) = some h) (hred : h.isReduce = true)
-    (hside : reduceSideOK e (shapesOf env) = true) :
+    (hr : raise e shape (shapesOf env) = some h) (hred : h.isReduce = true) :
     ∀ i, inB shape i = true → (hloDenote h shape env).get i = eval (idxEnv i env) e :=
-  fun i hi => tryReduce_sound e shape env h (raise_reduce_inv e shape _ h hr hred) hside i hi
+  fun i hi => tryReduce_sound e shape env h (raise_reduce_inv e shape _ h hr hred) i hi
 
-/-! ## the real reduction check is too permissive
+/-! ## the reduction check BEFORE its fix was too permissive
 
-`_is_normal_reduce_expr` (mirrored by `normalReduceAxes`) does not check that
-every reduction variable occurs exactly once in the subscript.  On hand-built
-index lambdas the raiser therefore MISREADS (confirmed on the real code):
-* `sum_r a[r, r]` (the trace) is raised to `ReduceOp(sum, a, {0: r, 1: r})` = the sum of all entries;
-* `sum_{r0<2} sum_{r1<7} a[_0, r0]` is raised to `ReduceOp(sum, a, {1: r0})`, dropping the factor 7.
-(It also does not check that every output axis is consumed, so the `ReduceOp`
-may have a different shape than the index lambda.) -/
+`tryReducePreFix` is the reduction stage as `_is_normal_reduce_expr` was before
+commit 782a56d (only the per-index loop).  It MISREAD hand-built index lambdas:
+* `sum_r a[r, r]` (the trace) was raised to `ReduceOp(sum, a, {0: r, 1: r})` = the sum of all entries;
+* `sum_{r0<2} sum_{r1<7} a[_0, r0]` was raised to `ReduceOp(sum, a, {1: r0})`, dropping the factor 7;
+* a reduction that does not consume every output axis was accepted.
+The fixed check (modelled by `tryReduce`) rejects all three (`raise_rejects`). -/
 
 def mrA : Arr Val := Arr.ofList [2, 2] [.i 1, .i 2, .i 3, .i 4] .undef
 def mrEnv : List (String × Arr Val) := [("a", mrA)]
@@ -196,16 +182,25 @@ def mrTrace : SExpr := .reduce .sum "_r0" (.int 0) (.int 2) (.sub "a" [.var "_r0
 def mrUnused : SExpr :=
   .reduce .sum "_r0" (.int 0) (.int 2)
     (.reduce .sum "_r1" (.int 0) (.int 7) (.sub "a" [.idx 0, .var "_r0"]))
+def mrUnconsumed : SExpr := .reduce .sum "_r0" (.int 0) (.int 2) (.sub "a" [.idx 0, .var "_r0"])
 
-theorem raise_reduce_misreads :
-    (∃ h, raise mrTrace [] (shapesOf mrEnv) = some h ∧ h.isReduce = true ∧
+def PreFixMisreads : Prop :=
+    (∃ h, tryReducePreFix mrTrace [] (shapesOf mrEnv) = some h ∧
       (hloDenote h [] mrEnv).get [] = .i 10 ∧ eval (idxEnv [] mrEnv) mrTrace = .i 5) ∧
-    (∃ h, raise mrUnused [2] (shapesOf mrEnv) = some h ∧ h.isReduce = true ∧
+    (∃ h, tryReducePreFix mrUnused [2] (shapesOf mrEnv) = some h ∧
       (hloDenote h [2] mrEnv).get [0] = .i 3 ∧ eval (idxEnv [0] mrEnv) mrUnused = .i 21) ∧
-    reduceSideOK mrTrace (shapesOf mrEnv) = false ∧
-    reduceSideOK mrUnused (shapesOf mrEnv) = false :=
-  ⟨⟨.reduce .sum "a" [(0, "_r0"), (1, "_r0")], rfl, rfl, by decide, by decide⟩,
-   ⟨.reduce .sum "a" [(1, "_r0")], rfl, rfl, by decide, by decide⟩, by decide, by decide⟩
+    (tryReducePreFix mrUnconsumed [2, 5] (shapesOf mrEnv)).isSome = true ∧
+    raise mrTrace [] (shapesOf mrEnv) = none ∧
+    raise mrUnused [2] (shapesOf mrEnv) = none ∧
+    raise mrUnconsumed [2, 5] (shapesOf mrEnv) = none
+
+theorem raise_reduce_prefix_misreads : PreFixMisreads :=
+  ⟨⟨.reduce .sum "a" [(0, "_r0"), (1, "_r0")], rfl, by decide, by decide⟩,
+   ⟨.reduce .sum "a" [(1, "_r0")], rfl, by decide, by decide⟩, by decide, by decide, by decide,
+   by decide⟩
+
+/-- (old name, kept for the harness) -/
+theorem raise_reduce_misreads : PreFixMisreads := raise_reduce_prefix_misreads
 
 /-! ## non-vacuity: forms the array API produces are recognised …-/
 
@@ -247,23 +242,22 @@ def c19RedAll : SExpr :=
     (.sub "_in0" [.var "_r0", .var "_r1"]))
 def c19RedMax : SExpr := .reduce .max "_r0" (.int 0) (.int 2) (.sub "_in0" [.var "_r0", .idx 0])
 example : (raise c19Red1 [2] (shapesOf c19Env)).map (·.isReduce) = some true
-    ∧ reduceSideOK c19Red1 (shapesOf c19Env) = true
     ∧ (raise c19Red1 [2] (shapesOf c19Env)).map (fun h => (hloDenote h [2] c19Env).toList)
         = some [.i 6, .i 15] := by decide
 example : (raise c19RedAll [] (shapesOf c19Env)).map (·.isReduce) = some true
-    ∧ reduceSideOK c19RedAll (shapesOf c19Env) = true
     ∧ (raise c19RedAll [] (shapesOf c19Env)).map (fun h => (hloDenote h [] c19Env).toList)
         = some [.i 21] := by decide
 example : (raise c19RedMax [3] (shapesOf c19Env)).map (·.isReduce) = some true
-    ∧ reduceSideOK c19RedMax (shapesOf c19Env) = true
     ∧ (raise c19RedMax [3] (shapesOf c19Env)).map (fun h => (hloDenote h [3] c19Env).toList)
         = some [.i 4, .i 5, .i 6] := by decide
 
 /-! ## … and near-misses are rejected (`raise_rejects`) -/
 
 /-- permuted subscript, offset subscript, constant subscript, three-operand sum,
-    `x + (-2)*y`, a cast operand on its own, an unknown function, a reduction
-    with non-zero lower bound, a reduction over the wrong extent -/
+    a cast operand on its own, an unknown function, a reduction with non-zero
+    lower bound, a reduction over the wrong extent, the trace `sum_r a[r, r]`,
+    a reduction variable that does not index the operand, a reduction that
+    leaves an output axis unconsumed, a subscript with too few indices -/
 theorem raise_rejects :
     raise (.sub "a" [.idx 1, .idx 0]) [4, 4] [("a", [4, 4])] = none ∧
     raise (.add (.sub "a" [.idx 1, .idx 0]) (.int 1)) [4, 4] [("a", [4, 4])] = none ∧
@@ -276,6 +270,14 @@ theorem raise_rejects :
     raise (.reduce .sum "_r0" (.int 1) (.int 4) (.sub "a" [.idx 0, .var "_r0"])) [4]
       [("a", [4, 4])] = none ∧
     raise (.reduce .sum "_r0" (.int 0) (.int 3) (.sub "a" [.idx 0, .var "_r0"])) [4]
+      [("a", [4, 4])] = none ∧
+    raise (.reduce .sum "_r0" (.int 0) (.int 4) (.sub "a" [.var "_r0", .var "_r0"])) []
+      [("a", [4, 4])] = none ∧
+    raise (.reduce .sum "_r0" (.int 0) (.int 4) (.reduce .sum "_r1" (.int 0) (.int 7)
+      (.sub "a" [.idx 0, .var "_r0"]))) [4] [("a", [4, 4])] = none ∧
+    raise (.reduce .sum "_r0" (.int 0) (.int 4) (.sub "a" [.idx 0, .var "_r0"])) [4, 5]
+      [("a", [4, 4])] = none ∧
+    raise (.reduce .sum "_r0" (.int 0) (.int 4) (.sub "a" [.var "_r0"])) []
       [("a", [4, 4])] = none := by decide
 
 end Pt
